@@ -75,6 +75,20 @@ def step (toks : List String) : String :=
       | .error h => hangStr h
       | .ok s => p6Str s.p)
     hxs Ms ++ " | " ++ " | ".intercalate outs
+  | "jump" :: which :: tpt :: nact :: dt :: m0 :: rest =>
+    -- rest: (m v x)* for particles 1 … N-1, one component
+    match nact.toNat? with
+    | none => "bad-op"
+    | some nact =>
+      let rec trip : List Float → List (Float × Float × Float)
+        | m :: v :: x :: r => (m, v, x) :: trip r
+        | _ => []
+      let ts := trip (rest.map fl)
+      let mv := ts.map (fun t => (t.1, t.2.1))
+      let xs := ts.map (fun t => t.2.2)
+      let t1 := tpt == "1"
+      if which == "mercurius" then hxs (mercuriusJump t1 nact (fl dt) (fl m0) mv xs)
+      else hxs (traceJump t1 nact (fl dt) (fl m0) mv xs)
   | _ => "bad-op"
 
 def main : IO Unit := runLines step
